@@ -254,6 +254,10 @@ class Resolver:
                 t = ("tuple", [self.anno(c.module, a.annotation) for a in c.annos.values()])
             for i, e in enumerate(tg.elts):
                 et = UNK
+                if isinstance(e, ast.Starred):
+                    # a, *rest = xs: rest is always a list (of the element type when xs is a homogeneous list)
+                    self._bind(e.value, ("list", t[1] if t[0] == "list" else UNK), env)
+                    continue
                 if t[0] == "tuple" and i < len(t[1]):
                     et = t[1][i]
                 elif t[0] == "list":
@@ -669,6 +673,61 @@ class Resolver:
         return UNK
 
     # ------------------------------------------------------------ callee resolution
+    def _param_callees(self, fi: FuncInfo, pname: str) -> Optional[List[FuncInfo]]:
+        """What a callable parameter of a private function / uniquely named method may be bound to: the functions and bound
+        methods handed over at every call site in the package.  None when a call site is not understood."""
+        ck = (fi.qualname, pname)
+        cache = self.__dict__.setdefault("_pc_cache", {})
+        if ck in cache:
+            return cache[ck]
+        cache[ck] = None
+        if isinstance(fi.node, ast.Lambda) or pname not in fi.params() or "<locals>" in fi.qualname:
+            return None
+        if any(isinstance(x, ast.Name) and x.id == pname and isinstance(x.ctx, ast.Store) for x in walk_no_nested(fi.node)):
+            return None
+        ps = fi.params()
+        off = 1 if fi.cls and not fi.is_staticmethod else 0
+        idx = ps.index(pname) - off
+        if idx < 0:
+            return None
+        if fi.cls is not None:
+            owners = [c for c in self.m.classes.values() if fi.name in c.methods]
+            if len(owners) != 1 or fi.name in BUILTIN_METHOD_NAMES or fi.name.startswith("__"):
+                return None
+        out: List[FuncInfo] = []
+        n_sites = 0
+        for g in list(self.m.functions.values()):
+            if isinstance(g.node, ast.Lambda) or fi.name not in self.m.modules[g.module].source:
+                continue
+            calls = {id(c.func): c for c in ast.walk(g.node) if isinstance(c, ast.Call)}
+            for x in walk_no_nested(g.node):
+                hit = None
+                if fi.cls is None and isinstance(x, ast.Name) and isinstance(x.ctx, ast.Load) and x.id == fi.name and self.m.resolve_name(g.module, x.id) == fi.qualname:
+                    hit = x
+                elif fi.cls is not None and isinstance(x, ast.Attribute) and x.attr == fi.name:
+                    hit = x
+                if hit is None:
+                    continue
+                c = calls.get(id(hit))
+                if c is None or any(isinstance(a, ast.Starred) for a in c.args) or any(k.arg is None for k in c.keywords):
+                    return None          # the function itself is passed around: call sites unknown
+                n_sites += 1
+                arg = c.args[idx] if idx < len(c.args) else next((k.value for k in c.keywords if k.arg == pname), None)
+                if arg is None:
+                    return None
+                t = self.strip_opt(self.type_of(arg, g))
+                if t[0] == "funcs":
+                    out += [self.m.functions[q] for q in t[1] if self.m.functions[q] not in out]
+                elif t[0] == "method":
+                    r = self._method_targets(t, None, None, cha_all=True)
+                    if r[0] != "funcs":
+                        return None
+                    out += [m for m in r[1] if m not in out]
+                else:
+                    return None
+        cache[ck] = out if n_sites and out else None
+        return cache[ck]
+
     def callees(self, e: ast.Call, fi: FuncInfo, self_cls: Optional[str] = None):
         """Resolve a call site. Returns one of
            ("funcs", [FuncInfo...], recv_expr|None)   package functions/methods (CHA for instance receivers)
@@ -698,6 +757,9 @@ class Resolver:
                 for a in fi.node.args.posonlyargs + fi.node.args.args + fi.node.args.kwonlyargs:
                     if a.arg == n and a.annotation is not None and "Type[" in norm(a.annotation):
                         return ("builtin", "typevar-ctor", None)
+                tg = self._param_callees(fi, n)
+                if tg:
+                    return ("funcs", tg, None)
                 return ("unknown", norm(e))
             q = self.m.resolve_name(fi.module, n)
             if q in self.m.classes:
